@@ -117,6 +117,7 @@ def run(tier):
         for _p in 'ds':
             _r12.run(chk, 'C20.kern.index', prog, _p, cfgname)
             _r12.run_snode(chk, 'C20.kern.index', prog, _p, cfgname)
+        kernels.leading_dimension_agreement(chk, 'C20.ld', prog, [q + 'gstrs' for q in 'sdcz'], cfgname, floor=4)
         from ..rules import expand as _expand
         chk.clause('C20.kern.copy', 'growth of factor storage carries the old contents over')
         _expand.copy_helper_rule(chk, 'C20.kern.copy', prog, cfgname)
